@@ -52,6 +52,10 @@ static void ep_mul_glv_imp(ep_t r, const ep_t p, const bn_t k) {
 	bn_null(k1);
 	ep_null(q);
 
+	for (i = 0; i < (1 << (RLC_WIDTH - 2)); i++) {
+		ep_null(t[i]);
+	}
+
 	RLC_TRY {
 		bn_new(n);
 		bn_new(m);
@@ -59,7 +63,6 @@ static void ep_mul_glv_imp(ep_t r, const ep_t p, const bn_t k) {
 		bn_new(k1);
 		ep_new(q);
 		for (i = 0; i < (1 << (RLC_WIDTH - 2)); i++) {
-			ep_null(t[i]);
 			ep_new(t[i]);
 		}
 
@@ -144,12 +147,15 @@ static void ep_mul_naf_imp(ep_t r, const ep_t p, const bn_t k) {
 	bn_null(n);
 	bn_null(m);
 
+	for (int i = 0; i < (1 << (RLC_WIDTH - 2)); i++) {
+		ep_null(t[i]);
+	}
+
 	RLC_TRY {
 		bn_new(n);
 		bn_new(m);
 		/* Prepare the precomputation table. */
 		for (int i = 0; i < (1 << (RLC_WIDTH - 2)); i++) {
-			ep_null(t[i]);
 			ep_new(t[i]);
 		}
 
@@ -208,6 +214,10 @@ static void ep_mul_reg_glv(ep_t r, const ep_t p, const bn_t k) {
 	ep_null(u);
 	ep_null(w);
 
+	for (size_t i = 0; i < (1 << (RLC_WIDTH - 2)); i++) {
+		ep_null(t[i]);
+	}
+
 	RLC_TRY {
 		bn_new(n);
 		bn_new(m[0]);
@@ -217,7 +227,6 @@ static void ep_mul_reg_glv(ep_t r, const ep_t p, const bn_t k) {
 		ep_new(w);
 
 		for (size_t i = 0; i < (1 << (RLC_WIDTH - 2)); i++) {
-			ep_null(t[i]);
 			ep_new(t[i]);
 		}
 
@@ -328,6 +337,12 @@ static void ep_mul_reg_imp(ep_t r, const ep_t p, const bn_t _k) {
 
 	bn_null(m);
 	bn_null(k);
+	ep_null(u);
+	ep_null(v);
+
+	for (i = 0; i < (1 << (RLC_WIDTH - 2)); i++) {
+		ep_null(t[i]);
+	}
 
 	RLC_TRY {
 		bn_new(m);
@@ -336,7 +351,6 @@ static void ep_mul_reg_imp(ep_t r, const ep_t p, const bn_t _k) {
 		ep_new(v);
 		/* Prepare the precomputation table. */
 		for (i = 0; i < (1 << (RLC_WIDTH - 2)); i++) {
-			ep_null(t[i]);
 			ep_new(t[i]);
 		}
 		/* Compute the precomputation table. */
@@ -494,11 +508,14 @@ void ep_mul_slide(ep_t r, const ep_t p, const bn_t k) {
 	bn_null(n);
 	bn_null(m);
 
+	for (size_t i = 0; i < (1 << (RLC_WIDTH - 1)); i ++) {
+		ep_null(t[i]);
+	}
+
 	RLC_TRY {
 		bn_new(n);
 		bn_new(m);
 		for (size_t i = 0; i < (1 << (RLC_WIDTH - 1)); i ++) {
-			ep_null(t[i]);
 			ep_new(t[i]);
 		}
 		ep_new(q);
